@@ -415,6 +415,53 @@ def ob_roundtrip(sim, mode, dynamic, variant=None):
         shutil.rmtree(tmp, ignore_errors=True)
 
 
+def ob_mesh_saveload_mixed():
+    """Mesh.Save / Load_Mesh on a mesh with two element groups of the same dimension (TRI3 + QUAD4): the mesh read back lists the same groups in the same order with the
+    same connectivity, so that every per-element array of a stored iteration still belongs to its element; also through _Simu.Save / Load_Simu"""
+    from EasyFEA import Models, Simulations
+    from EasyFEA.FEM._mesh import Load_Mesh
+    from .C03 import _mixed_mesh
+    tmp = tempfile.mkdtemp(prefix="vt_c15m_")
+    try:
+        mesh = _mixed_mesh()
+
+        def signature(m):
+            return [(str(g.elemType), np.asarray(g.connect).copy()) for g in m.Get_list_groupElem()] + [("all", [str(t) for t in m.dict_groupElem])]
+
+        def centers(m):
+            co = np.asarray(m.coord)
+            return np.vstack([co[np.asarray(g.connect)].mean(axis=1) for g in m.Get_list_groupElem(m.dim)])
+        path = mesh.Save(tmp, "mixed")
+        back = Load_Mesh(path)
+        a, b = signature(mesh), signature(back)
+        if [x[0] for x in a] != [x[0] for x in b] or a[-1] != b[-1] or any(not np.array_equal(x[1], y[1]) for x, y in zip(a[:-1], b[:-1])):
+            raise Refuted(f"Mesh.Save / Load_Mesh on a TRI3 + QUAD4 mesh: groups {[x[0] for x in a[:-1]]} (dictionary order {a[-1][1]}) come back as {[x[0] for x in b[:-1]]} (dictionary order {b[-1][1]})",
+                          cex=dict(groups=[x[0] for x in a[:-1]]), signature="meshsaveload:mixed:order", replay=dict(confirmed=True))
+        if np.abs(centers(mesh) - centers(back)).max() > 0:
+            raise Refuted("Mesh.Save / Load_Mesh on a mixed mesh: the elements of the main dimension are not listed in the same order", signature="meshsaveload:mixed:centers", replay=dict(confirmed=True))
+        # a stored iteration evaluated per element before and after Save / Load_Simu
+        simu = Simulations.Elastic(mesh, Models.Elastic.Isotropic(2, E=3.0, v=0.25, planeStress=True))
+        co = np.asarray(mesh.coord)
+        simu.add_dirichlet(np.where(np.isclose(co[:, 0], co[:, 0].min()))[0], [0, 0], ["x", "y"])
+        simu.add_dirichlet(np.where(np.isclose(co[:, 0], co[:, 0].max()))[0], [0.01], ["x"])
+        simu.Solve()
+        simu.Save_Iter()
+        want = {nm: np.asarray(simu.Result(nm, nodeValues=False)).copy() for nm in ("Svm", "Exx", "Wdef_e")}
+        simu.Save(os.path.join(tmp, "S"))
+        from EasyFEA.Simulations._simu import Load_Simu
+        for label, s2 in (("live after Save", simu), ("Load_Simu", Load_Simu(os.path.join(tmp, "S")))):
+            s2.Set_Iter(0)
+            for nm, w in want.items():
+                g = np.asarray(s2.Result(nm, nodeValues=False))
+                if g.shape != w.shape or np.abs(g - w).max() > 1e-12 * max(np.abs(w).max(), 1e-300):
+                    raise Refuted(f"mixed TRI3 + QUAD4 mesh, {label}: per-element result {nm} of stored iteration 0 differs from its value at save time (max difference "
+                                  f"{np.abs(g - w).max() if g.shape == w.shape else 'shape'}): the elements were re-ordered", cex=dict(result=nm, where=label), signature=f"meshsaveload:mixed:{nm}",
+                                  replay=dict(confirmed=True))
+        return Verdict(DISCHARGED, backend="native", sub=8)
+    finally:
+        shutil.rmtree(tmp, ignore_errors=True)
+
+
 def _multimesh_history():
     """iter0 on mesh A, iter1 on mesh B, back to iter0, solve + save iter2 (on A), then restore 1, 2, 0, 2."""
     from EasyFEA import Models, Simulations, SolverType
@@ -666,6 +713,8 @@ def build(tier, seed):
     for case in ("twice", "folder", "continue"):
         obs.append(Ob(f"C15.save.history.{case}", ob_save_histories, (case,), "X", (f"{SIMU}::_Simu.Save", f"{SIMU}::_Simu.__Update_mesh", f"{SIMU}::Load_Simu"), bound="one Elastic simulation, two meshes in the history",
                       clause="Save into a second folder / a folder change after Save / Save again after more steps: every stored iteration is still restored with its mesh and state, live and loaded", timeout=300))
+    obs.append(Ob("C15.saveload.mesh.mixed", ob_mesh_saveload_mixed, (), "X", ("EasyFEA/FEM/_mesh.py::Mesh.Save", "EasyFEA/FEM/_mesh.py::Load_Mesh", f"{SIMU}::_Simu.Save"), bound="one TRI3 + QUAD4 mesh, one stored iteration",
+                  clause="a mesh with two element groups of the same dimension comes back with the same groups, order and connectivity; per-element results of a stored iteration are unchanged by Save / Load_Simu", timeout=300))
     for sim in sims:
         obs.append(Ob(f"C15.saveload.{sim.lower()}", ob_saveload, (sim,), "X", (f"{SIMU}::_Simu.Save", f"{SIMU}::Load_Simu", f"{SIMS[sim]}::{sim}.Results_Get_Iteration_Summary"), bound=f"one {sim} simulation, 2 iterations",
                       clause="Save / Load_Simu round trip preserves mesh, history length and stored fields", timeout=300))
